@@ -199,7 +199,16 @@ def check_map(case, rec=None):
         if not nan[idx]:
             ubi[idx] = built[which[idx]][7]
             phase[idx] = which[idx] % 2
-    phases = {k: unitcell.unitcell(vox[k]["cell"], "P") for k in range(min(2, len(vox)))}
+    # phase ids are dictionary keys, not positions: zero based, one based, inserted in reverse, with a gap
+    scheme = ["zero", "one", "reverse", "gap"][case["mseed"] % 4]
+    ids = {"zero": [0, 1], "one": [1, 2], "reverse": [0, 1], "gap": [3, 7]}[scheme]
+    phase = np.where(phase >= 0, np.array(ids)[np.clip(phase, 0, 1)], -1)
+    order = list(range(min(2, len(vox))))
+    if scheme == "reverse":
+        order = order[::-1]
+    phases = {}
+    for k in order:
+        phases[ids[k]] = unitcell.unitcell(vox[k]["cell"], "P")
     exp_c = np.full(shape + (3, 3), np.nan)
     exp_s = np.full(shape + (3, 3), np.nan)
     polarR = np.full(shape + (3, 3), np.nan)
@@ -297,7 +306,7 @@ def check_map(case, rec=None):
         big = any(np.abs(np.array(v["e"])).max() >= 1e-3 for v in vox)
         nc = any(v["family"] != "cubic" for v in vox)
         c = dict(case, voxels=[dict(family=v["family"], cell=v["cell"], e=v["e"]) for v in vox])
-        rec.case(c, big and nc and nan.any() and (~nan).any(), ["map", "nanfrac:%g" % case["nanfrac"]])
+        rec.case(c, big and nc and nan.any() and (~nan).any(), ["map", "nanfrac:%g" % case["nanfrac"], "phase_ids:" + scheme])
     return fails
 
 
